@@ -76,6 +76,39 @@ type Inner2 struct {
 	Y string `plenc:"2"`
 }
 
+// families whose construction FAILS part-way through a recursive definition
+// (an untagged exported field after the self reference)
+type BadRec struct {
+	Next *BadRec `plenc:"1"`
+	Kids []BadRec `plenc:"2"`
+	X    int
+}
+
+type GoodViaBad struct {
+	B *BadHolder `plenc:"1"`
+	V int        `plenc:"2"`
+}
+
+type BadHolder struct {
+	G *GoodViaBad         `plenc:"1"`
+	M map[string]*BadRec2 `plenc:"2"`
+	X int
+}
+
+type BadRec2 struct {
+	Self *BadRec2 `plenc:"1"`
+	Dup1 int      `plenc:"2"`
+	Dup2 int      `plenc:"2"`
+}
+
+// same codec used by several goroutines at once (decode scratch state)
+type ProtoMapHolder struct {
+	A int             `plenc:"1"`
+	M map[int64]int64 `plenc:"2,proto"`
+	K map[Inner2]int  `plenc:"3,proto"`
+	P map[string]int  `plenc:"4"`
+}
+
 var staticTypes = map[string]reflect.Type{}
 
 func regStatic(v interface{}) {
@@ -86,7 +119,7 @@ func regStatic(v interface{}) {
 func init() {
 	for _, v := range []interface{}{MyI16(0), MyI32(0), MyI64(0), MyU8(0), MyU32(0), MyUint(0), MyInt(0), MyInt8(0), MyU16(0), MyU64(0), MyStr(""), MyBool(false),
 		MyF64(0), MyF32(0), MyBytes(nil), MyTime{}, MyStrs(nil), MyInts(nil), MyMap(nil),
-		Rec{}, MutA{}, MutB{}, RecMap{}, Inner{}, Outer{}, Inner2{}} {
+		Rec{}, MutA{}, MutB{}, RecMap{}, Inner{}, Outer{}, Inner2{}, BadRec{}, GoodViaBad{}, BadHolder{}, BadRec2{}, ProtoMapHolder{}} {
 		regStatic(v)
 	}
 }
